@@ -557,19 +557,23 @@ def run_C04(ctx, proof_ok):
     n1, d1, dist1 = ndc.compare(cases, E)
     n2, d2, dist2 = ndc.search_backends(r, E, budget(ctx.tier, 100, 2500))
     n3, d3 = ndc.search_batched(r, E, budget(ctx.tier, 80, 2000))
-    ctx.violations.extend(d1 + d2 + d3)
+    n4, d4 = ndc.search_axis_grids(r, E, budget(ctx.tier, 60, 1500))
+    ctx.violations.extend(d1 + d2 + d3 + d4)
     modes = collections.Counter(c["mode"] for c in cases)
-    return {"evaluations": n1 + n2 + n3, "distinct_nontrivial": sum(1 for c in cases if len(c["ops"]) > 3) + n2 + n3,
+    return {"evaluations": n1 + n2 + n3 + n4, "distinct_nontrivial": sum(1 for c in cases if len(c["ops"]) > 3) + n2 + n3 + n4,
             "rule": "random sequences of T/E/Phi/P/R/SPOILER and shifts in 5 modes (n-D integer vectors, python-int and n-D mixed = "
                     "back-end change mid-sequence, gridded float shifts, time accumulation C, gradient operator G; 1-3 spatial "
                     "dimensions, pruning on/off): (1) wavenumber -> state tables of epgpy vs the Lean table model at K4; (2) the "
                     "property: inverse Fourier sum of epgpy's stored states at a random position and off-resonance vs the Bloch "
                     "isochromat computed by the Lean specification blochRunN; back-end search: the same sequence through shift-1d / "
                     "shift-nd / shift-merge / shift-prune and with a switch mid-sequence hold identical content; batched shifts vs "
-                    "each signal alone",
+                    "each signal alone; per-axis kgrid forms (scalar / one value per axis / fewer values = last repeated / more "
+                    "values = cropped; coarse first-axis cell with shifts that are multiples of it) on the merging and pruning "
+                    "back-ends vs the integer n-D back-end",
             "samples": [lib.jsonable(cases[-1])],
             "distribution": {"model_cases": n1, "modes": dict(modes), **{k: int(v) for k, v in dist1.items()},
-                             "backend_cases": n2, **{"backend_" + k: int(v) for k, v in dist2.items()}, "batched_cases": n3}}
+                             "backend_cases": n2, **{"backend_" + k: int(v) for k, v in dist2.items()}, "batched_cases": n3,
+                             "axis_grid_cases": n4}}
 
 
 def run_C05(ctx, proof_ok):
@@ -583,7 +587,7 @@ def run_C05(ctx, proof_ok):
     n2, d2, dist2 = difc.search_pathways(r, E, budget(ctx.tier, 120, 3000))
     n3, d3 = difc.search_identities(r, E, budget(ctx.tier, 60, 1500))
     ctx.violations.extend(d1 + d2 + d3)
-    return {"evaluations": n1 + n2 + n3, "distinct_nontrivial": sum(1 for c in cases if len(c["ops"]) > 3) + n2 + n3,
+    return {"evaluations": n1 + n2 + n3 + n4, "distinct_nontrivial": sum(1 for c in cases if len(c["ops"]) > 3) + n2 + n3 + n4,
             "rule": "random sequences of T/E/Phi, integer 1-3-D shifts and D(tau, D[, k]) with scalar or random SPD tensor "
                     "diffusivities, kvalue in [2e3, 3e4] rad/m: wavenumber -> state tables of epgpy vs the Lean coordinate-table "
                     "model with `diffuse`; the property: 1-4 RF pulses of arbitrary flip angle/phase with gradient and gradient-free "
@@ -628,7 +632,7 @@ def run_C06(ctx, proof_ok):
     n4, d4 = exc.search_grid(lib.rng(606), E, budget(ctx.tier, 40, 800))
     ctx.violations.extend(d1 + d2 + d3 + d4)
     n3 = n3 + n4
-    return {"evaluations": n1 + n2 + n3, "distinct_nontrivial": sum(1 for c in cases if len(c["ops"]) > 3) + n2 + n3,
+    return {"evaluations": n1 + n2 + n3 + n4, "distinct_nontrivial": sum(1 for c in cases if len(c["ops"]) > 3) + n2 + n3 + n4,
             "rule": "2-4 compartments with random densities and detailed-balance kinetic matrices (or a scalar rate), sequences of "
                     "T / S / per-compartment E / X(tau, K, T1, T2, g incl. None): every compartment's states vs the Lean exchange "
                     "model (scaled Taylor exponential, an algorithm independent of the code's eigendecomposition); physics search: X "
@@ -973,7 +977,7 @@ DIFF_PARTIAL = ["proved: (i) every coefficient's symbolic derivative is its deri
                 "parameter space, and stays defined (`defined_d`); (ii) regenerated tables = symbolic derivatives; (iii) the dictionary "
                 "bookkeeping accumulates the chain-rule terms exactly once (first order, mixed pairs and diagonal pairs, any operator "
                 "class and parameter lists: `pairVar_value`, `diagVar_value`); (iv) first order: what the bookkeeping stores is the "
-                "derivative of the new state (T, E, Phi, P families), lifted by induction to whole programs (`C02Run.jacobian_exact`); "
+                "derivative of the new state (T, E, Phi, P and R families: `famT`, `famE`, `famPhi`, `famP`, `famR`, `famR0`), lifted by induction to whole programs (`C02Run.jacobian_exact`); "
                 "(v) second order: for RF pulses and relaxation intervals whose parameters depend (non-linearly) on two variables, the "
                 "value stored under (a, b) is the derivative with respect to b of the new first partial under a "
                 "(`T_mixed_partial_exact_nl`, `E_mixed_partial_exact_nl`), lifted by induction to whole programs of pulses, "
@@ -1201,7 +1205,7 @@ PROPS["C09"] = {
 # source-text and symbolic-execution tie modules (hand-written statements about regenerated Gen files, rebuilt every run)
 EXTRA_MODULES = {
     "C01": ["EpgVerif.Tie.ApplySites"],
-    "C02": ["EpgVerif.Tie.DiffSites", "EpgVerif.Props.C02Run", "EpgVerif.Props.C02Fam"],
+    "C02": ["EpgVerif.Tie.DiffSites", "EpgVerif.Props.C02Run", "EpgVerif.Props.C02Fam", "EpgVerif.Props.C02FamR"],
     "C03": ["EpgVerif.Tie.DiffSites", "EpgVerif.Props.C03Run", "EpgVerif.Props.C03Gen", "EpgVerif.Props.C03E", "EpgVerif.Props.C03Prog", "EpgVerif.Props.C03Diag", "EpgVerif.Props.C03EDiag", "EpgVerif.Props.C03P", "EpgVerif.Props.C03Phi", "EpgVerif.Props.C03R", "EpgVerif.Props.C03All", "EpgVerif.Props.C03PRDiag"],
     "C04": ["EpgVerif.Tie.ShiftSites", "EpgVerif.Props.C04Multi"],
     "C05": ["EpgVerif.Tie.PhysSites", "EpgVerif.Props.C05Path", "EpgVerif.Props.C05Att"],
